@@ -209,7 +209,7 @@ func c20RunOnce(sc *c20Scenario, res *kernel.Result) c20Out {
 			env.Clear()
 		}
 	}
-	out.Stdout = verifos.Stdout.String()
+	out.Stdout = verifos.Output()
 	return out
 }
 
@@ -419,6 +419,12 @@ var targetedC20 = []struct {
 	// from them) must not show in the next run of the same program
 	{"typelist-after-declarations", false, []string{"(def tn (len (typelist)))", "(struct Tl1 [(field p: (* Tl1)) (field q: ([]Tl1))])", "(def tv (Tl1))", "(str [tn (len (typelist))])"}},
 	{"struct-named-like-a-builtin-type", false, []string{"(struct Zb9 [(field n: int64) (field s: string)])", "(str (Zb9 n: 1 s: \"x\"))", "(type? 1)", "(type? \"s\")", "(struct int64 [(field a: string)])", "(struct string)"}},
+	// names that differ only in case (any ordering of names must still be total), in every listing of names
+	{"case-twin-names", false, []string{"(def ab 1) (def Ab 2) (def AB 3) (def aB 4)", "(def pk (package \"ct\" { Xy := 1; xY := 2; XY := 3; xy := 4; Ab := 5; aB := 6 }))", "(str pk)",
+		"(def cl (let [qa 1 Qa 2 QA 3 qA 4] (fn [] (+ qa Qa QA qA))))", "(str cl)", "(str (hash xy: 1 Xy: 2 xY: 3 XY: 4))", "(struct Ct1 [(field ab: int64) (field Ab: int64) (field AB: int64) (field aB: int64)])", "(str (Ct1 ab: 1 Ab: 2 AB: 3 aB: 4))",
+		"(defn fct [] (let [za 1 Za 2 zA 3 ZA 4] (_closdump (fn [] za))))"}},
+	// output that does not end in a newline belongs to the interpreter that wrote it
+	{"print-without-newline", false, []string{"(print \"count: \")", "(println 3)", "(printf \"%v and \" 4)", "(println \"more\")", "(print \"done\")"}},
 	{"defmap-then-struct", false, []string{"(defmap Dl1)", "(def dr (Dl1 a: 1))", "(struct Dl1 [(field b: string)])", "(str dr)"}},
 	{"compare-records", false, []string{
 		"(def ra (hash a: 1 b: \"x\" c: [1 2] d: 2.5 e: true f: 7 g: 8 h: 9))", "(def rb (hash a: 2 b: 3 c: \"y\" d: (hash) e: nil f: 6 g: 9 h: 1))",
